@@ -68,17 +68,41 @@ func c04Delays(c *Case, r *Run) {
 // ================================================================ part 2: the real operator
 
 type c04Binding struct { // a schedule binding
-	Name    string
+	Name    string // unique key of the binding inside the case
 	Crontab string
 	AF      bool
 	Group   int
+	CfgName string // the `name:` of the configuration: "" = Name, "-" = no name (default name "schedule"), else a name other bindings may share
+}
+
+// c04CfgName is the binding name the operator uses (binding names need not be unique).
+func c04CfgName(key, cfg, dflt string) string {
+	switch cfg {
+	case "":
+		return key
+	case "-":
+		return dflt
+	}
+	return cfg
+}
+
+func (b c04Binding) bname() string { return c04CfgName(b.Name, b.CfgName, "schedule") }
+
+func (b c04KBinding) bname() string { return c04CfgName(b.Name, b.CfgName, "kubernetes") }
+
+func c04NameLine(cfg, key string) string {
+	if cfg == "-" {
+		return "- "
+	}
+	return fmt.Sprintf("- name: %s\n  ", c04CfgName(key, cfg, ""))
 }
 
 type c04KBinding struct { // a kubernetes binding (ConfigMaps labelled verif=<Name> in the case's namespace)
-	Name  string
-	AF    bool
-	Group int
-	EOS   bool // executeHookOnSynchronization
+	Name    string // unique key: namespace and label of the binding's objects
+	AF      bool
+	Group   int
+	EOS     bool   // executeHookOnSynchronization
+	CfgName string // see c04Binding.CfgName (default name "kubernetes")
 }
 
 type c04Hook struct {
@@ -138,7 +162,7 @@ func (h c04Hook) script(dir, ns string) string {
 	if len(h.Bindings) > 0 {
 		b.WriteString("schedule:\n")
 		for _, bd := range h.Bindings {
-			fmt.Fprintf(&b, "- name: %s\n  crontab: \"%s\"\n  allowFailure: %v\n", bd.Name, bd.Crontab, bd.AF)
+			fmt.Fprintf(&b, "%scrontab: \"%s\"\n  allowFailure: %v\n", c04NameLine(bd.CfgName, bd.Name), bd.Crontab, bd.AF)
 			if h.Queue != 0 {
 				fmt.Fprintf(&b, "  queue: %s\n", c04QueueName(h.Queue))
 			}
@@ -150,7 +174,7 @@ func (h c04Hook) script(dir, ns string) string {
 	if len(h.KBindings) > 0 {
 		b.WriteString("kubernetes:\n")
 		for _, kb := range h.KBindings {
-			fmt.Fprintf(&b, "- name: %s\n  apiVersion: v1\n  kind: ConfigMap\n  allowFailure: %v\n  executeHookOnSynchronization: %v\n", kb.Name, kb.AF, kb.EOS)
+			fmt.Fprintf(&b, "%sapiVersion: v1\n  kind: ConfigMap\n  allowFailure: %v\n  executeHookOnSynchronization: %v\n", c04NameLine(kb.CfgName, kb.Name), kb.AF, kb.EOS)
 			fmt.Fprintf(&b, "  namespace:\n    nameSelector:\n      matchNames: [%s-%s]\n  labelSelector:\n    matchLabels:\n      verif: %s\n", ns, kb.Name, kb.Name)
 			if h.Queue != 0 {
 				fmt.Fprintf(&b, "  queue: %s\n", c04QueueName(h.Queue))
@@ -183,7 +207,11 @@ case "$mode" in
   gen\ *)
     if [ -s "$D/out.$H.$n.m" ]; then cat "$D/out.$H.$n.m" > "$METRICS_PATH"; fi
     if [ -s "$D/out.$H.$n.p" ]; then cat "$D/out.$H.$n.p" > "$KUBERNETES_PATCH_PATH"; fi
-    exit "${mode#gen }" ;;
+    x="${mode#gen }"
+    case "$x" in
+      sig*) ulimit -c 0; kill -"${x#sig}" $$; sleep 0.2; kill -9 $$ ;;
+    esac
+    exit "$x" ;;
   patchop) printf 'operation: MergePatch\nkind: ConfigMap\nnamespace: default\nname: does-not-exist\nmergePatch:\n  data:\n    a: b\n' > "$KUBERNETES_PATCH_PATH"; exit 0 ;;
 esac
 exit 3
@@ -208,6 +236,7 @@ type c04Snap struct {
 	eos   bool
 	ctxs  string // intrinsic: binding:type:group
 	bname string // binding name of the first context
+	mon   string // first monitor id (Synchronization tasks)
 }
 
 // c04Entry is taken inside the wrapped queue handler before the real handler runs: the queue as the
@@ -277,6 +306,9 @@ func (w *c04World) snap(x task.Task) c04Snap {
 		s.hook, s.af, s.group, s.bt, s.eos, s.ctxs = hm.HookName, hm.AllowFailure, hm.Group, hm.BindingType, hm.ExecuteOnSynchronization, w.metaCtxs(hm)
 		if len(hm.BindingContext) > 0 {
 			s.bname = hm.BindingContext[0].Binding
+		}
+		if len(hm.MonitorIDs) > 0 {
+			s.mon = hm.MonitorIDs[0]
 		}
 	}
 	return s
@@ -522,8 +554,17 @@ func (w *c04World) taskLine(s c04Snap, qn int) string {
 	af, grp, eos := s.af, c04GroupNum(s.group), s.eos
 	if s.typ == task_metadata.HookRun && s.bt == htypes.OnKubernetesEvent {
 		// a Synchronization task: what the generated configuration of its binding prescribes
-		for _, kb := range h.KBindings {
-			if kb.Name == s.bname {
+		// (binding names need not be unique: the monitor id tells which binding of the configuration it is)
+		idx := -1
+		if rh := w.op.HookManager.GetHook(s.hook); rh != nil && rh.Config != nil && s.mon != "" {
+			for i, kc := range rh.Config.OnKubernetesEvents {
+				if kc.Monitor != nil && kc.Monitor.Metadata.MonitorId == s.mon {
+					idx = i
+				}
+			}
+		}
+		for i, kb := range h.KBindings {
+			if (idx < 0 && kb.bname() == s.bname) || i == idx {
 				af, grp, eos = kb.AF, kb.Group, kb.EOS
 			}
 		}
@@ -584,7 +625,10 @@ func (w *c04World) push(h c04Hook, bd c04Binding) bool {
 		return false
 	}
 	w.c.Note("event:schedule")
-	return w.arrived(h, before, bd.AF, bd.Group, 1, bd.Name, 3)
+	if bd.CfgName != "" {
+		w.c.Note("event:binding-with-shared-name")
+	}
+	return w.arrived(h, before, bd.AF, bd.Group, 1, bd.bname(), 3)
 }
 
 // pushKube creates a ConfigMap matching exactly this binding: informer → kube event → task.
@@ -598,7 +642,10 @@ func (w *c04World) pushKube(h c04Hook, kb c04KBinding) bool {
 		return false
 	}
 	w.c.Note("event:kubernetes")
-	return w.arrived(h, before, kb.AF, kb.Group, 2, kb.Name, 1)
+	if kb.CfgName != "" {
+		w.c.Note("event:binding-with-shared-name")
+	}
+	return w.arrived(h, before, kb.AF, kb.Group, 2, kb.bname(), 1)
 }
 
 // begin waits until the worker of the queue has entered the handler for its head task; for a hook
@@ -708,6 +755,20 @@ func (w *c04World) begin(qn int) string {
 	return "exec"
 }
 
+// cancelDelay calls the public CancelTaskDelay of the queue while its worker is inside the handler
+// (the hook is blocked at its gate): no wait loop is in progress, the request must leave nothing
+// behind — a back-off that starts later is not its business.
+func (w *c04World) cancelDelay(qn int) {
+	q := w.op.TaskQueues.GetByName(c04QueueName(qn))
+	if q == nil {
+		return
+	}
+	q.CancelTaskDelay()
+	wip, pend := q.VerifWaitFlags()
+	w.c.Op(fmt.Sprintf("cancel q=%d", qn), fmt.Sprintf("wait=%d pending=%d", c04B01(wip), c04B01(pend)))
+	w.c.Note("cancel:CancelTaskDelay-while-the-handler-runs")
+}
+
 // end lets the blocked hook finish in the given mode and records what the handler returned.
 func (w *c04World) end(qn int, mode string, out *c04Out) string {
 	run := w.running[qn]
@@ -737,6 +798,9 @@ func (w *c04World) end(qn int, mode string, out *c04Out) string {
 			_ = os.WriteFile(base+".m", []byte(out.Metrics), 0o644)
 			_ = os.WriteFile(base+".p", []byte(out.Patch), 0o644)
 			mode = fmt.Sprintf("gen %d", out.Exit)
+			if out.Sig > 0 {
+				mode = fmt.Sprintf("gen sig%d", out.Sig)
+			}
 		}
 		if run.kind == "exec" {
 			// the hook blocks reading its gate fifo
@@ -839,14 +903,15 @@ type c04Plan struct {
 	boInit     time.Duration
 	boStep     time.Duration
 	realBo     bool
-	outcome    func(taskID int, failuresSoFar int) string // "ok" | "exit" | "metrics" | "patch" | … | "gen-ok" | "gen-bad" (generated output files)
-	genRng     *Rng                                       // for the generated outputs
+	outcome    func(taskID int, failuresSoFar int) string  // "ok" | "exit" | "metrics" | "patch" | … | "gen-ok" | "gen-bad" (generated output files)
+	genRng     *Rng                                        // for the generated outputs
 	genOut     func(taskID int, failuresSoFar int) *c04Out // fixed outputs (corpus); overrides outcome
-	arrivals   func(qn int, step int) []c04Ev             // events fired while a run is blocked
-	boArrivals func(qn int, step int) []c04Ev             // events fired right after a failed run, i.e. during its back-off
-	initial    map[int][]c04Ev                            // per queue: first layout (the rest arrives while the first run is blocked)
+	arrivals   func(qn int, step int) []c04Ev              // events fired while a run is blocked
+	boArrivals func(qn int, step int) []c04Ev              // events fired right after a failed run, i.e. during its back-off
+	initial    map[int][]c04Ev                             // per queue: first layout (the rest arrives while the first run is blocked)
 	maxSteps   int
 	onExec     func(w *c04World, qn, id int, pre, now []c04Snap, run *c04Running) // see c04World.onExec
+	cancels    func(qn int, step int) int                                         // CancelTaskDelay() calls on the queue while a run is blocked (handler running)
 }
 
 func (w *c04World) fire(p c04Plan, e c04Ev) bool {
@@ -919,6 +984,11 @@ func c04Execute(c *Case, r *Run, p c04Plan) {
 						}
 					}
 				}
+				if p.cancels != nil {
+					for n := p.cancels(qn, step); n > 0; n-- {
+						w.cancelDelay(qn)
+					}
+				}
 			}
 			st := finish(qn)
 			if st == "hang" {
@@ -961,6 +1031,11 @@ func c04Execute(c *Case, r *Run, p c04Plan) {
 		for _, e := range evs[1:] {
 			if !w.fire(p, e) {
 				return
+			}
+		}
+		if p.cancels != nil {
+			for n := p.cancels(qn, -1); n > 0; n-- {
+				w.cancelDelay(qn)
 			}
 		}
 		if finish(qn) == "hang" {
@@ -1008,6 +1083,26 @@ func c04GenHooks(rng *Rng, nh int, kube bool) []c04Hook {
 					kb.Group = rng.Range(1, 2)
 				}
 				h.KBindings = append(h.KBindings, kb)
+			}
+		}
+		// binding names need not be unique: unnamed bindings all get the default name of their kind
+		// ("schedule" / "kubernetes"), explicit names may be repeated — also across kinds
+		if !h.V0 && rng.Chance(45) {
+			share := PickOne(rng, []string{"-", "-", fmt.Sprintf("n%d", i+1)})
+			for j := range h.Bindings {
+				if rng.Chance(80) {
+					h.Bindings[j].CfgName = share
+				}
+			}
+			if rng.Chance(50) {
+				kshare := PickOne(rng, []string{"-", fmt.Sprintf("n%d", i+1), fmt.Sprintf("kn%d", i+1)})
+				// (the name of a grouped kubernetes binding must be unambiguous among the kubernetes
+				// bindings of the hook — configuration check: only ungrouped ones share)
+				for j := range h.KBindings {
+					if h.KBindings[j].Group == 0 && rng.Chance(80) {
+						h.KBindings[j].CfgName = kshare
+					}
+				}
 			}
 		}
 		hooks = append(hooks, h)
@@ -1091,9 +1186,30 @@ func c04Random(c *Case, rng *Rng, r *Run) {
 		boArr++
 		return []c04Ev{PickOne(rng, byQueue[qn])}
 	}
+	// CancelTaskDelay() (public, used by embedding operators to wake a queue) while a run is blocked
+	withCancels := rng.Chance(50)
+	p.cancels = func(qn, step int) int {
+		if !withCancels || !rng.Chance(35) {
+			return 0
+		}
+		return rng.Range(1, 2)
+	}
 	nb := 0
+	shared := false
 	for _, h := range hooks {
 		nb += len(h.Bindings)
+		seen := map[string]bool{}
+		for _, b := range h.Bindings {
+			shared = shared || seen[b.bname()]
+			seen[b.bname()] = true
+		}
+		for _, b := range h.KBindings {
+			shared = shared || seen[b.bname()]
+			seen[b.bname()] = true
+		}
+	}
+	if shared {
+		c.Note("case:bindings-sharing-a-name")
 	}
 	c.Desc = fmt.Sprintf("operator run: %d hooks, %d schedule + %d kubernetes bindings, layouts main=%d q1=%d", len(hooks), nb, nk, len(p.initial[0]), len(p.initial[1]))
 	c.Nontrivial = len(p.initial[0])+len(p.initial[1]) >= 2
@@ -1125,6 +1241,62 @@ func c04Witness(c *Case, r *Run, headAF, followerAF bool, queueN int, fails int)
 		}
 		return "ok"
 	}
+	c04Execute(c, r, p)
+}
+
+// Two bindings of one hook that share their binding name (both unnamed: "schedule"; or the same
+// explicit name) with different allowFailure, adjacent in one queue, failing hook; CancelTaskDelay()
+// is called while runs are blocked.
+func c04SameNameWitness(c *Case, r *Run, cfgName string, headAF bool, queueN int) {
+	hooks := []c04Hook{{Name: "hook01", Num: 1, Queue: queueN, Bindings: []c04Binding{
+		{Name: "b2", Crontab: "1 0 1 1 *", AF: headAF, CfgName: cfgName},
+		{Name: "b3", Crontab: "2 0 1 1 *", AF: !headAF, CfgName: cfgName},
+	}}, {Name: "hook02", Num: 2, Queue: queueN, Bindings: []c04Binding{{Name: "b4", Crontab: "3 0 1 1 *"}}}}
+	p := c04Plan{hooks: hooks, boInit: 30 * time.Millisecond, boStep: 5 * time.Millisecond, maxSteps: 20,
+		initial: map[int][]c04Ev{queueN: {{1, 0, false}, {0, 0, false}, {0, 1, false}, {0, 0, false}, {1, 0, false}}}}
+	gate := -1
+	p.outcome = func(id, failed int) string {
+		if gate < 0 {
+			gate = id // the gate run of hook02
+			return "ok"
+		}
+		if failed < 2 {
+			return "exit"
+		}
+		return "ok"
+	}
+	p.cancels = func(qn, step int) int { return 1 }
+	c04Execute(c, r, p)
+}
+
+// A hook process that is terminated by a signal instead of exiting (with and without output files
+// written before), a task of another hook waiting behind it.
+func c04KillWitness(c *Case, r *Run) {
+	hooks := []c04Hook{{Name: "hook01", Num: 1, Queue: 1, Bindings: []c04Binding{{Name: "b2", Crontab: "1 0 1 1 *"}}},
+		{Name: "hook02", Num: 2, Queue: 1, Bindings: []c04Binding{{Name: "b3", Crontab: "2 0 1 1 *"}}}}
+	p := c04Plan{hooks: hooks, boInit: 30 * time.Millisecond, boStep: 5 * time.Millisecond, maxSteps: 30,
+		initial: map[int][]c04Ev{1: {{1, 0, false}, {0, 0, false}, {1, 0, false}}}}
+	m := `{"name":"verif_k","set":1}` + "\n"
+	outs := []*c04Out{
+		{Sig: 9, Shape: "killed-by-signal-9", Bad: true},
+		{Sig: 15, Metrics: m, Shape: "killed-by-signal-15", Bad: true},
+		{Sig: 11, Shape: "killed-by-signal-11", Bad: true},
+		{Exit: 255, Metrics: m, Shape: "exit-255", Bad: true},
+		{Metrics: m, Shape: "valid-output"},
+	}
+	first := -1
+	p.genOut = func(id, failed int) *c04Out {
+		if first < 0 {
+			first = id // the gate run of hook02
+		}
+		if id == first || id == first+2 {
+			return &c04Out{Shape: "valid-output", PApply: true}
+		}
+		o := *outs[min(failed, len(outs)-1)]
+		o.PApply = true
+		return &o
+	}
+	p.cancels = func(qn, step int) int { return step % 2 }
 	c04Execute(c, r, p)
 }
 
@@ -1182,7 +1354,7 @@ func c04OutWitness(c *Case, r *Run) {
 }
 
 func runC04(r *Run) {
-	r.Rule = "part 1: the real CalculateDelay (8 initial delays x retry counts 0..40, repeated) and the queue's default ExponentialBackoffFn: every observed delay must be a member of the model's set {calcDelay k r | r < 1000}; oracle: initial <= delay <= 32s. part 2: the real operator (NewShellOperator + real metric storages + kube-client/fake + real hook manager, kube events manager, events handler and queues) with 1..3 generated bash hooks (onStartup, 1..3 schedule bindings, in 60% of the cases 1..3 kubernetes bindings on ConfigMaps, each with allowFailure/group, kubernetes ones with executeHookOnSynchronization; queue main or q1) whose every execution blocks at a gate until the harness lets it finish as scripted (ok / exit 1 / unparsable metrics file / unparsable patch file / metric operation that fails validation / patch operation that cannot be applied); startup runs onStartup and Synchronization tasks; then schedule events are fired through ScheduleManager.Ch() and kubernetes events by creating objects in the fake cluster while a run is blocked, so queue layouts of 1..6 tasks (+ up to 4 arriving during runs) with mixed allowFailure values are in the queue when the head is handled; back-off shortened through ExponentialBackoffFn (15..30 ms + 5 ms*failureCount, or the real CalculateDelay for the first failure). Observation per run (taken inside a wrapper of the queue's Handler field and from the hook): queue at handler entry, contexts in the hook's context file, queue at handler return, failure counter, back-off returned, time from the back-off call to the next handler entry. 60% of the failing and half of the successful executions leave GENERATED output files behind (exit code, text of the metrics file, text of the patch file: 1..3 valid metric operations / 1..2 valid patch specs in varied spelling, damaged by one of: truncated, stray closer }/] before the first / between two / after the last document, trailing garbage, wrong type of a field, top level not an object, separator between documents, bad token, operation failing validation, unknown field, patch that cannot be applied, non-zero exit with good files); for these runs the lines carry exit code and file texts and the Lean driver decides from the texts whether the run failed. part 3: generated and corpus texts through MetricOperationsFromBytes+ValidateOperations and ParseOperations alone, compared with the model's verdict. Non-trivial: >= 2 tasks in the layouts. distinct = distinct op-line sequences."
+	r.Rule = "part 1: the real CalculateDelay (8 initial delays x retry counts 0..40, repeated) and the queue's default ExponentialBackoffFn: every observed delay must be a member of the model's set {calcDelay k r | r < 1000}; oracle: initial <= delay <= 32s. part 2: the real operator (NewShellOperator + real metric storages + kube-client/fake + real hook manager, kube events manager, events handler and queues) with 1..3 generated bash hooks (onStartup, 1..3 schedule bindings, in 60% of the cases 1..3 kubernetes bindings on ConfigMaps, each with allowFailure/group, kubernetes ones with executeHookOnSynchronization; queue main or q1) whose every execution blocks at a gate until the harness lets it finish as scripted (ok / exit 1 / unparsable metrics file / unparsable patch file / metric operation that fails validation / patch operation that cannot be applied); startup runs onStartup and Synchronization tasks; then schedule events are fired through ScheduleManager.Ch() and kubernetes events by creating objects in the fake cluster while a run is blocked, so queue layouts of 1..6 tasks (+ up to 4 arriving during runs) with mixed allowFailure values are in the queue when the head is handled; back-off shortened through ExponentialBackoffFn (15..30 ms + 5 ms*failureCount, or the real CalculateDelay for the first failure). Observation per run (taken inside a wrapper of the queue's Handler field and from the hook): queue at handler entry, contexts in the hook's context file, queue at handler return, failure counter, back-off returned, time from the back-off call to the next handler entry. 60% of the failing and half of the successful executions leave GENERATED output files behind (exit code, text of the metrics file, text of the patch file: 1..3 valid metric operations / 1..2 valid patch specs in varied spelling, damaged by one of: truncated, stray closer }/] before the first / between two / after the last document, trailing garbage, wrong type of a field, top level not an object, separator between documents, bad token, operation failing validation, unknown field, patch that cannot be applied, non-zero exit with good files); for these runs the lines carry exit code and file texts and the Lean driver decides from the texts whether the run failed. Fourth wave dimensions: 45% of the v1 hooks have bindings that SHARE A NAME (no name: line = default name of the kind, or one explicit name; ungrouped kubernetes bindings too, also across kinds); 18% of the generated failing outputs end with the hook process TERMINATED BY A SIGNAL (16 signals, after the files are written; exit=sig<n> on the lines), exit codes 1 2 3 64 126 127 128 130 137 143 254 255; in half of the cases the public CancelTaskDelay() of the queue is called 1..2 times in 35% of the runs WHILE THE HOOK IS BLOCKED (worker inside the handler, no wait in progress; cancel line: flags read through VerifWaitFlags) — the back-off of a failure of that run must still last its length (oracle begin). part 3: generated and corpus texts through MetricOperationsFromBytes+ValidateOperations and ParseOperations alone, compared with the model's verdict. Non-trivial: >= 2 tasks in the layouts. distinct = distinct op-line sequences."
 	r.CaseTimeout = 300 * time.Second
 	r.One(0, func(c *Case, _ *Rng) { c04Delays(c, r) })
 	r.One(1, func(c *Case, _ *Rng) {
@@ -1207,6 +1379,21 @@ func runC04(r *Run) {
 		c.Nontrivial = true
 		c04OutWitness(c, r)
 	})
+	r.One(8, func(c *Case, _ *Rng) {
+		c.Desc = "corpus: two UNNAMED schedule bindings of one hook (both named \"schedule\"), head allowFailure:true, follower allowFailure:false, hook fails twice; CancelTaskDelay() while each run is blocked"
+		c.Nontrivial = true
+		c04SameNameWitness(c, r, "-", true, 1)
+	})
+	r.One(9, func(c *Case, _ *Rng) {
+		c.Desc = "corpus: two schedule bindings with the same explicit name, head allowFailure:false, follower allowFailure:true, main queue"
+		c.Nontrivial = true
+		c04SameNameWitness(c, r, "same", false, 0)
+	})
+	r.One(4, func(c *Case, _ *Rng) {
+		c.Desc = "corpus: hook process terminated by SIGKILL / SIGTERM / SIGSEGV (ExitCode() = -1), then exit 255, then success; a task of another hook waits behind; CancelTaskDelay() during every other run"
+		c.Nontrivial = true
+		c04KillWitness(c, r)
+	})
 	r.Cases(10, r.N(120, 1000), 0, func(c *Case, rng *Rng) { c04Random(c, rng, r) })
 	if r.Thorough() {
 		// exhaustive small scope: layouts of 1..3 schedule tasks of two hooks x allowFailure x failure counts 0..2
@@ -1215,6 +1402,7 @@ func runC04(r *Run) {
 			af    [3]bool
 			other [3]bool
 			fails int
+			share bool // the two bindings of a hook are unnamed: both are called "schedule"
 		}
 		var cfgs []cfg
 		for n := 1; n <= 3; n++ {
@@ -1230,6 +1418,9 @@ func runC04(r *Run) {
 				}
 				for f := 0; f <= 2; f++ {
 					x.fails = f
+					x.share = false
+					cfgs = append(cfgs, x)
+					x.share = true
 					cfgs = append(cfgs, x)
 				}
 			}
@@ -1240,6 +1431,13 @@ func runC04(r *Run) {
 				{Name: "hook01", Num: 1, Queue: 1, Bindings: []c04Binding{{Name: "b2", Crontab: "1 0 1 1 *", AF: false}, {Name: "b3", Crontab: "2 0 1 1 *", AF: true}}},
 				{Name: "hook02", Num: 2, Queue: 1, Bindings: []c04Binding{{Name: "b4", Crontab: "3 0 1 1 *", AF: false}, {Name: "b5", Crontab: "4 0 1 1 *", AF: true}}},
 				{Name: "hook03", Num: 3, Queue: 1, Bindings: []c04Binding{{Name: "b6", Crontab: "5 0 1 1 *"}}},
+			}
+			if x.share {
+				for hi := 0; hi < 2; hi++ {
+					for bi := range hooks[hi].Bindings {
+						hooks[hi].Bindings[bi].CfgName = "-"
+					}
+				}
 			}
 			lay := []c04Ev{{2, 0, false}}
 			for i := 0; i < x.n; i++ {
@@ -1262,9 +1460,9 @@ func runC04(r *Run) {
 			c04Execute(c, r, p)
 		})
 		r.Exhaust = true
-		r.Extra["exhaustive_scope"] = fmt.Sprintf("all %d scripts: layouts of 1..3 schedule tasks over 2 hooks x allowFailure, every task failing 0..2 times", len(cfgs))
+		r.Extra["exhaustive_scope"] = fmt.Sprintf("all %d scripts: layouts of 1..3 schedule tasks over 2 hooks x allowFailure, every task failing 0..2 times, x (bindings with unique names | both bindings of a hook unnamed)", len(cfgs))
 		// the default back-off once (5 s)
-		r.One(4, func(c *Case, _ *Rng) {
+		r.One(2000000, func(c *Case, _ *Rng) {
 			c.Desc = "default ExponentialBackoffFn (5 s initial delay), one failure then success"
 			c.Nontrivial = true
 			hooks := []c04Hook{{Name: "hook01", Num: 1, Queue: 1, Bindings: []c04Binding{{Name: "b2", Crontab: "1 0 1 1 *"}}}}
